@@ -2403,7 +2403,10 @@ fn c20(g: &Group, obs: &[Obs]) -> Option<String> {
             }
             if code == 0 {
                 // rows never go to standard error: on success it holds diagnostics only
-                let stray = run.err.split(|b| *b == b'\n').find(|l| !l.is_empty() && !(policy == "stderr" && l.starts_with(b"error:")));
+                // (a report quotes the offending character as it is — a line feed included —, so a report may span two lines:
+                //  what must never be there is a ROW, i.e. a line that is a JSON value)
+                let stray = run.err.split(|b| *b == b'\n').find(|l| !l.is_empty() && !(policy == "stderr" && l.starts_with(b"error:"))
+                    && (policy != "stderr" || value::strict_parse(l).is_ok()));
                 if let Some(l) = stray {
                     return Some(format!("{what}: unexpected text on standard error of a successful run: {:?}", String::from_utf8_lossy(l).chars().take(120).collect::<String>()));
                 }
